@@ -538,7 +538,11 @@ static uint32_t *
 bits_image_fetch_affine_no_alpha_float (pixman_iter_t  *iter,
 					const uint32_t *mask)
 {
-    return __bits_image_fetch_affine_no_alpha(iter, TRUE, mask);
+    /* The mask of the wide pipeline holds four floats per pixel: it cannot
+     * be indexed per pixel as an array of uint32_t to skip masked-out
+     * pixels, so fetch everything.
+     */
+    return __bits_image_fetch_affine_no_alpha(iter, TRUE, NULL);
 }
 
 /* General fetcher */
@@ -707,7 +711,8 @@ static uint32_t *
 bits_image_fetch_general_float (pixman_iter_t  *iter,
 				const uint32_t *mask)
 {
-    return __bits_image_fetch_general(iter, TRUE, mask);
+    /* See bits_image_fetch_affine_no_alpha_float() */
+    return __bits_image_fetch_general(iter, TRUE, NULL);
 }
 
 static void
